@@ -37,6 +37,8 @@ def main(argv):
         # reported as an oracle crash (unclassified => the run fails loudly)
         ctx.counters["worker_crash"] += 1
         ctx.finding("oracle-crash", {"where": "worker %d" % shard}, traceback.format_exc())
+    for api in ctx.apis:
+        ctx.count("call_forms_varied", api.varied_calls)
     ctx.dump()
     return 0
 
